@@ -1,6 +1,7 @@
 import NA.Proofs.C14
 import NA.Proofs.C14Routes
 import NA.Props.AsaSafe
+import NA.Props.IosSafe
 /-!
 # C14 — incremental ACL and route changes are safe at every intermediate step
 
@@ -20,6 +21,9 @@ naturals (bit positions of the lines' match sets).
   executed plan keeps the verdict of every packet on which old and new agree, provided no downward move
   crosses a still-present old line it does not commute with (`NoCross`); `asa_steps_safe_needs_noCross`
   shows the hypothesis is necessary; without moves no hypothesis is needed (`asa_steps_safe_no_moves`).
+* `ios_steps_safe_partial` etc. (NA.Props.IosSafe): the same for the model of `diffIOSACLs` on the strict
+  numbered-entry device (`ios_steps_old_or_final` for all ACLs, relative to the target for remark-free ACLs);
+  `ios_no_common_line_unsafe` is the kernel-evaluated witness of finding F-C14b.
 * `routes_covered`: for scripts of the emitted shape every destination covered before and after
   is covered after every step.
 -/
@@ -120,5 +124,8 @@ def obligations : List Lean.Name := [
   ``NA.Acl.steps_safe_counterexample, ``NA.Acl.steps_safe_counterexample_ios,
   ``NA.Route.routes_covered,
   ``NA.Acl.asa_steps_old_or_new, ``NA.Acl.asa_steps_safe_partial, ``NA.Acl.asa_steps_old_or_new_no_moves,
-  ``NA.Acl.asa_steps_safe_no_moves, ``NA.Acl.asa_steps_safe_needs_noCross]
+  ``NA.Acl.asa_steps_safe_no_moves, ``NA.Acl.asa_steps_safe_needs_noCross,
+  ``NA.IosSafe.ios_steps_old_or_final, ``NA.IosSafe.ios_steps_safe_partial,
+  ``NA.IosSafe.ios_steps_safe_no_suppression_partial, ``NA.IosSafe.ios_steps_safe_no_moves,
+  ``NA.IosSafe.ios_steps_safe_needs_noCross, ``NA.IosSafe.ios_no_common_line_unsafe]
 end NA.C14
